@@ -35,6 +35,9 @@ def shards(tier, seed):
 		dict(name='small-array-lzf', path='array', nsig=4, size=50, comp='lzf'),
 		dict(name='small-wrapped-array', path='wrapped-array', nsig=5, size=100, comp=None),
 		dict(name='empty-sigs-list', path='list', nsig=6, size=0, comp=None),
+		dict(name='overwrite-list', path='list', nsig=6, size=80, comp=None, preexisting=True),
+		dict(name='overwrite-array', path='array', nsig=6, size=80, comp=None, preexisting=True),
+		dict(name='overwrite-list-strids-gzip', path='list', nsig=7, size=60, comp='gzip', ids='str', preexisting=True),
 		dict(name='annotated-list-strids', path='list', nsig=8, size=30, comp=None, ids='str'),
 		dict(name='medium-list', path='list', nsig=120, size=400, comp=None),
 		dict(name='medium-array-gzip', path='array', nsig=120, size=400, comp='gzip'),
@@ -48,9 +51,10 @@ def shards(tier, seed):
 		             dict(name='medium-list-lzf', path='list', nsig=150, size=300, comp='lzf')]
 	for p in payloads:
 		out.append(dict(name=f'calls-{p["name"]}', kind='calls', payload=p, maxpoints=140 if tier == 'quick' else 100000))
-	for p in payloads[:4] + payloads[7:9]:
-		out.append(dict(name=f'sys-{p["name"]}', kind='sys', payload=p, maxpoints=14 if tier == 'quick' else 400))
-	out.append(dict(name='sys-large-list', kind='sys', payload=payloads[9], maxpoints=10 if tier == 'quick' else 150))
+	byname = {p['name']: p for p in payloads}
+	for nm in ('small-array', 'small-list', 'small-list-gzip', 'small-array-lzf', 'overwrite-array', 'overwrite-list', 'medium-list', 'medium-array-gzip'):
+		out.append(dict(name=f'sys-{nm}', kind='sys', payload=byname[nm], maxpoints=14 if tier == 'quick' else 400))
+	out.append(dict(name='sys-large-list', kind='sys', payload=byname['large-list-8MB'], maxpoints=10 if tier == 'quick' else 150))
 	ncli = 4 if tier == 'quick' else 8
 	for j in range(ncli):
 		out.append(dict(name=f'cli-create-{j}', kind='cli', part=j, nparts=ncli, nfiles=4 if tier == 'quick' else 8))
@@ -141,8 +145,22 @@ def install_kill_wrappers(n, when, counter):
 	wrap(h5py.File, 'flush'); wrap(h5py.File, 'close')
 
 
+def prewrite(p, path):
+	"""The output path already holds a complete, different signature file (the user overwrites an older set)."""
+	old = dict(p, name=p['name'] + '-OLD', nsig=p['nsig'] + 2, preexisting=False)
+	pid = os.fork()
+	if pid == 0:
+		try:
+			do_write(old, path)
+		finally:
+			os._exit(0)
+	os.waitpid(pid, 0)
+
+
 def forked_write(p, path, n, when):
 	"""Run the writer in a forked child, killing it at call n. Returns ('killed'|'completed'|'error', total_calls|None)."""
+	if p.get('preexisting') and n != -1:
+		prewrite(p, path)
 	r, wfd = os.pipe()
 	sys.stdout.flush(); sys.stderr.flush()
 	pid = os.fork()
@@ -281,6 +299,7 @@ def run_calls(sh, ctx):
 # ---- syscall level ------------------------------------------------------------------------------------------
 
 WRITER_SNIPPET = 'import sys, json; from vf.props import c19; c19.do_write(json.loads(sys.argv[1]), sys.argv[2])'
+PREWRITE_SNIPPET = 'import sys, json; from vf.props import c19; p = json.loads(sys.argv[1]); c19.do_write(dict(p, name=p["name"] + "-OLD", nsig=p["nsig"] + 2, preexisting=False), sys.argv[2])'
 
 
 def run_sys(sh, ctx):
@@ -308,6 +327,8 @@ def run_sys(sh, ctx):
 	for n in pts:
 		if path.exists():
 			os.unlink(path)
+		if p.get('preexisting'):
+			subprocess.run([PY, '-c', PREWRITE_SNIPPET, json.dumps(p), str(path)], env=env, capture_output=True, timeout=600)
 		pr = subprocess.run(['strace', '-f', '-o', '/dev/null', '-e', 'trace=pwrite64', '-e', f'inject=pwrite64:signal=KILL:when={n}'] + base, env=env, capture_output=True, timeout=600)
 		size = path.stat().st_size if path.exists() else -1
 		outcome = forked_load(p, path) if size >= 0 else 'refused:FileNotFoundError'
